@@ -1,5 +1,6 @@
 import YV.Drv.S
 import YV.Model.YCompile
+import YV.Spec.YCfgS
 namespace YV.Drv.Cm
 open Lean YV YV.Y YV.SC YV.C YV.Drv YV.Drv.T YV.Drv.S
 
@@ -9,7 +10,7 @@ def metaOf (j : Json) : Meta :=
     iff := (jarr j "iff").map fun f => bytesOf (strOf f),
     notSupported := jbool j "notSupported" }
 
-instance : Inhabited A := ⟨.leafList [] {}⟩
+instance : Inhabited A := ⟨.leafList [] {} none none⟩
 
 partial def loadA (j : Json) : A :=
   let name := bytesOf (jstr j "n")
@@ -17,9 +18,9 @@ partial def loadA (j : Json) : A :=
   let m := metaOf j
   match jstr j "k" with
   | "container" => .container name m (jbool j "presence") kids
-  | "list" => .list name m ((jarr j "keys").map fun k => bytesOf (strOf k)) kids
+  | "list" => .list name m ((jarr j "keys").map fun k => bytesOf (strOf k)) (optNat j "min") (optNat j "max") kids
   | "leaf" => .leaf name m (jbool j "mandatory") (optStr j "dflt")
-  | "leaf-list" => .leafList name m
+  | "leaf-list" => .leafList name m (optNat j "min") (optNat j "max")
   | "choice" => .choice name m (jbool j "mandatory") (optStr j "dflt") kids
   | _ => .case name m kids
 
@@ -31,9 +32,9 @@ def coreOf (a : Attr) : String :=
   let base := s!"cfg={a.cfg} st={a.st}"
   match a.kind with
   | .container => base ++ s!" flag={a.flag}"
-  | .list => base ++ " keys=" ++ ",".intercalate (a.keys.map strOfTok)
+  | .list => base ++ " keys=" ++ ",".intercalate (a.keys.map strOfTok) ++ s!" min={a.mn.getD 0} max={match a.mx with | some x => toString x | none => "unbounded"}"
   | .leaf => base ++ s!" flag={a.flag}" ++ (if a.flag then "" else match a.dflt with | some d => " def=" ++ Y.hexOf d | none => "")
-  | .leafList => base
+  | .leafList => base ++ s!" min={a.mn.getD 0} max={match a.mx with | some x => toString x | none => "unbounded"}"
   | .choice => base ++ s!" flag={a.flag}" ++ (match a.dflt with | some d => " def=" ++ Y.hexOf d | none => "")
   | .case => base
 
@@ -53,7 +54,7 @@ def filters : List (String × (Attr → Bool)) :=
 
 def handleFilter (j : Json) : List (String × Json) :=
   let top := (jarr j "top").map loadA
-  let feat := (jarr j "features").map fun f => bytesOf (strOf f)
+  let feat : FeatEnv := {}
   let all := compile keepAll feat top
   let head := match all with | .ok _ => "all:ok" | .error e => "all:compile-err " ++ e
   let perFilter (useModel : Bool) := filters.map fun (nm, f) =>
@@ -72,5 +73,73 @@ def handleFilter (j : Json) : List (String × Json) :=
   let m := "\n".intercalate (head :: perFilter true ++ tail)
   let s := "\n".intercalate (head :: perFilter false ++ tail)
   [("m", m), ("s", s)]
+
+end YV.Drv.Cm
+
+namespace YV.Drv.Cm
+open Lean YV YV.Y YV.SC YV.C YV.CS YV.Drv YV.Drv.T YV.Drv.S
+
+def qual (mod : String) (s : String) : Tok := bytesOf (if s.contains ':' then s else mod ++ ":" ++ s)
+
+def declsOf (mod : String) (js : List Json) : List FeatDecl :=
+  js.map fun f => { key := qual mod (jstr f "n"), deps := (jarr f "iff").map fun d => qual mod (strOf d),
+                    st := match jstr f "status" with | "deprecated" => 1 | "obsolete" => 2 | _ => 0 }
+
+/-- if-feature references on nodes are written relative to module m -/
+partial def qualA (a : A) : A :=
+  let q (m : Meta) : Meta := { m with iff := m.iff.map fun f => if f.contains 58 then f else bytesOf "m:" ++ f }
+  match a with
+  | .container n m p k => .container n (q m) p (k.map qualA)
+  | .list n m ks mn mx k => .list n (q m) ks mn mx (k.map qualA)
+  | .leaf n m md d => .leaf n (q m) md d
+  | .leafList n m mn mx => .leafList n (q m) mn mx
+  | .choice n m md d c => .choice n (q m) md d (c.map qualA)
+  | .case n m k => .case n (q m) (k.map qualA)
+
+def devOf (j : Json) : Dev :=
+  { path := (jarr j "path").map fun p => bytesOf (strOf p),
+    kind := match jstr j "kind" with | "not-supported" => .notSupported | "add" => .add | "replace" => .replace | _ => .delete,
+    prop := match jstr j "prop" with | "default" => .dflt | "mandatory" => .mandatory | "min-elements" => .minEl | "max-elements" => .maxEl | _ => .config,
+    val := bytesOf (jstr j "val") }
+
+def hasSub (s sub : String) : Bool := (s.splitOn sub).length > 1
+
+def classOf (e : String) : String :=
+  if hasSub e "config true node can't have a config false parent" then "err:cfg-under-false"
+  else if hasSub e "Cannot override status of parent" then "err:status-override"
+  else if hasSub e "node cannot reference" then "err:ref-status"
+  else if hasSub e "Feature cyclic reference" then "err:feature-cycle"
+  else if hasSub e "Property being added to node already exists" then "err:dev-add-exists"
+  else if hasSub e "Only existing proprties can be replaced" then "err:dev-replace-missing"
+  else if hasSub e "Property being deleted by deviation must exist" then "err:dev-delete-missing"
+  else if hasSub e "Property not allowed" then "err:dev-not-allowed"
+  else if hasSub e "Invalid path" then "err:dev-bad-path"
+  else "err:other:" ++ e
+
+def handleCfg (j : Json) : List (String × Json) :=
+  let top := ((jarr j "top").map loadA).map qualA
+  let decls := declsOf "b" (jarr j "bfeatures") ++ declsOf "m" (jarr j "features")
+  let raw := (jarr j "enabled").map fun e => bytesOf (strOf e)
+  let devs := (jarr j "devs").map devOf
+  let run (t : List A) (ds : List Dev) := compileCfg decls raw (bytesOf "m") t ds
+  let dev := run top devs
+  let v := match dev with | .ok _ => "V:ok" | .error e => "V:" ++ classOf e
+  let edited := editAll top devs
+  let metaL : List String :=
+    if devs.isEmpty then [] else
+    match edited, dev with
+    | none, .ok _ => ["meta:forbidden-deviation-accepted"]
+    | none, .error _ => ["meta:rejected"]
+    | some et, _ =>
+      match run et [], dev with
+      | .error _, .error _ => ["meta:both-fail"]
+      | .error e, .ok _ => ["meta:edited-fails:" ++ classOf e]
+      | .ok _, .error _ => ["meta:deviated-fails-edited-ok"]
+      | .ok a, .ok b => [if dumpTop a = dumpTop b then "meta:equal" else "meta:DIFF"]
+  let dumpM := match dev with | .ok t => ["dump:\n" ++ dumpTop t] | .error _ => []
+  let dumpS := match edited with
+    | some et => (match run et [] with | .ok t => ["dump:\n" ++ dumpTop t] | .error _ => dumpM)
+    | none => dumpM
+  [("m", "\n".intercalate (v :: metaL ++ dumpM)), ("s", "\n".intercalate (v :: metaL ++ dumpS))]
 
 end YV.Drv.Cm
